@@ -58,6 +58,14 @@ fn o_steps(c: &mut VmCase) -> String {
         if let Some(b) = bounds(&vm) {
             return format!("FAIL after step {steps} (pc {} op {:?}): {b}", vm.pc, op);
         }
+        // a step, successful or not, leaves the stack of parent memories as it found it (Compute pushes a snapshot for its
+        // children only)
+        if vm.parent_memory.len() != c.vm.parent_memory.len() {
+            return format!(
+                "FAIL after step {steps} (pc {} op {:?}, result {}): the Vm is left with {} parent memories, it started with {}",
+                vm.pc, op, if r.is_ok() { "ok" } else { "error" }, vm.parent_memory.len(), c.vm.parent_memory.len()
+            );
+        }
         match r {
             Err(_) => break,
             Ok(Some(ProgramControlFlow::Pc(p))) => vm.pc = p,
@@ -86,6 +94,12 @@ fn o_steps(c: &mut VmCase) -> String {
         if let Some(b) = bounds(&vm2) {
             return format!("FAIL after exec_ops: {b}");
         }
+    }
+    if vm2.parent_memory.len() != c.vm.parent_memory.len() {
+        return format!(
+            "FAIL after exec_ops ({}): the Vm is left with {} parent memories, it started with {}",
+            if r.is_ok() { "ok" } else { "error" }, vm2.parent_memory.len(), c.vm.parent_memory.len()
+        );
     }
     format!("ok steps={steps}")
 }
